@@ -697,6 +697,11 @@ impl<'a> Exec<'a> {
                 let sealed = e.recipients().map_err(|e| e.to_string())?;
                 let mut key = None;
                 for sm in sealed {
+                    // (a key is only tried on sealed messages of its own scheme: the decapsulation of the
+                    // dependency panics on another ML-KEM level - finding D13)
+                    if sm.encapsulation_scheme() != r0.private.encapsulation_scheme() {
+                        continue;
+                    }
                     if let Ok(p) = sm.decrypt(&r0.private) {
                         key = Some(bc_components::SymmetricKey::from_tagged_cbor_data(p).map_err(|e| e.to_string())?);
                         break;
